@@ -55,8 +55,10 @@ func vActJSON(a vAct) map[string]any {
 	switch a.Act {
 	case "OpenStream", "RemoveStream", "OnStreamClose", "Unsub2":
 		return map[string]any{"act": a.Act, "s": a.S}
-	case "SubReject", "Sub1":
+	case "SubReject", "SubCheck":
 		return map[string]any{"act": a.Act, "s": a.S, "sp": a.Sp, "f": segs(a.F)}
+	case "Sub1":
+		return map[string]any{"act": a.Act, "s": a.S}
 	case "Unsub1":
 		return map[string]any{"act": a.Act, "s": a.S, "sp": a.Sp, "P": segs(a.P)}
 	case "EvictMember", "AddMember", "RemoveMember":
@@ -253,41 +255,60 @@ func (r *vRecorder) nodeRun(steps int) {
 				r.emit(vAct{Act: "SubReject", S: s, Sp: sp, F: f}, r.outView(e.flush(e.allModels()), false), r.stView(true))
 				continue
 			}
-			e.mem.arm(s)
-			st := e.streams[s]
-			wait := st.push(frame)
-			select {
-			case <-e.mem.atGate:
-			case <-time.After(vWatchdog):
+			if !r.parkSubscribe(s, sp, f) {
 				panic(vHang{"subscribe did not reach the membership check"})
 			}
+			r.laterFrames[s] = 0
 			r.noteFrame(s)
-			r.emit(vAct{Act: "Sub1", S: s, Sp: sp, F: f}, nil, nil)
-			// steps that do not need remoteMu may run while the subscribe holds it
+			r.emit(vAct{Act: "SubCheck", S: s, Sp: sp, F: f}, r.outView(e.flush(e.allModels()), false), r.stView(true))
+			// the membership check is behind, remoteMu not yet taken: anything may run now
 			for k := pick(3); k > 0; k-- {
 				x := 1 + pick(cfg.NStreams)
-				switch {
-				case pick(2) == 0 && r.st[x-1] == "open":
+				spc := []string{"X", "Y"}[pick(2)]
+				acct := cfg.Accounts[pick(2)]
+				before := e.views(r.universe)
+				var act vAct
+				switch c2 := pick(10); {
+				case c2 < 3 && r.st[x-1] == "open":
 					e.removeStream(x, true)
 					r.st[x-1] = "removed"
-					r.emit(vAct{Act: "RemoveStream", S: x}, r.outView(e.flush(e.allModels()), false), r.stView(false))
-				case pick(2) == 0:
-					a, spc := cfg.Accounts[pick(2)], []string{"X", "Y"}[pick(2)]
-					on := !r.member[a+"|"+spc]
-					e.mem.set(a, spc, on)
-					r.member[a+"|"+spc] = on
-					act := "RemoveMember"
+					act = vAct{Act: "RemoveStream", S: x}
+				case c2 < 5 && r.st[x-1] == "removed":
+					e.onStreamClose(x)
+					r.st[x-1] = "gone"
+					act = vAct{Act: "OnStreamClose", S: x}
+				case c2 < 7:
+					on := !r.member[acct+"|"+spc]
+					e.mem.set(acct, spc, on)
+					r.member[acct+"|"+spc] = on
+					act = vAct{Act: "RemoveMember", Acct: acct, Sp: spc}
 					if on {
-						act = "AddMember"
+						act.Act = "AddMember"
 					}
-					r.emit(vAct{Act: act, Acct: a, Sp: spc}, r.outView(e.flush(e.allModels()), false), r.stView(false))
+				case c2 < 8:
+					e.svc.EvictMember(spc, e.accts[acct].SignKey.GetPublic())
+					act = vAct{Act: "EvictMember", Sp: spc, Acct: acct}
+				case c2 < 9:
+					e.svc.RevalidateMembers(spc, func(account string) bool { return e.mem.isMember(e.acctName(account), spc) })
+					act = vAct{Act: "Revalidate", Sp: spc}
+				default:
+					e.svc.CloseSpace(spc)
+					act = vAct{Act: "CloseSpace", Sp: spc}
 				}
+				if act.Act == "" {
+					continue
+				}
+				r.stepNo++
+				after := e.views(r.universe)
+				r.noteEviction(act)
+				r.checkWithdrawn(act, before, after)
+				r.checkEvicted(act, 0, after)
+				r.emit(act, r.outView(e.flush(e.allModels()), false), r.stView(true))
 			}
-			e.mem.mu.Lock()
-			ch := e.mem.release[s]
-			e.mem.mu.Unlock()
-			close(ch)
-			st.waitHandled(wait)
+			r.emit(vAct{Act: "Sub1", S: s}, nil, nil)
+			r.releaseSubscribe(s)
+			r.stepNo++
+			r.checkEvicted(vAct{Act: "Sub2"}, s, e.views(r.universe))
 			r.emit(vAct{Act: "Sub2"}, r.outView(e.flush(e.allModels()), false), r.stView(true))
 		case c < 52: // unsubscribe
 			s := 1 + pick(cfg.NStreams)
@@ -398,7 +419,10 @@ func (r *vRecorder) nodeRun(steps int) {
 					act.Act = "AddMember"
 				}
 			}
+			r.stepNo++
+			r.noteEviction(act)
 			r.checkWithdrawn(act, adminBefore, e.views(r.universe))
+			r.checkEvicted(act, 0, e.views(r.universe))
 			r.emit(act, r.outView(e.flush(e.allModels()), false), r.stView(true))
 		}
 		r.checkQuiescent()
@@ -444,7 +468,8 @@ func TestVerifRecord(t *testing.T) {
 	w.Emit(map[string]any{"ev": "config", "cfg": cfg})
 	for i := 0; i < runs; i++ {
 		b := vBehaviour{Cfg: cfg, Src: fmt.Sprintf("recorded-node-run-%d", i), Steps: []vStep{{A: vAct{Act: "recorded"}}}}
-		rp := &vReplayer{rep: rep, b: b, subWait: map[int]int{}, hookPending: map[int]bool{}, laterFrames: map[int]int{}}
+		rp := &vReplayer{rep: rep, b: b, subWait: map[int]int{}, hookPending: map[int]bool{}, laterFrames: map[int]int{},
+			parked: map[int]bool{}, evicted: map[string]int{}, checkedAt: map[int]int{}}
 		for _, sp := range []string{"X", "Y", "Z"} {
 			for _, p := range vRecPatterns {
 				if vValidPattern(p) {
